@@ -422,13 +422,32 @@ def rw_find(body, cnt):
         body = body[:m.start()] + repl + body[c + 1:]
         cnt.hit('R8')
 
+def rw_map_collect(body, cnt):
+    """R19: let [mut] X = V.iter().map(|d| E).collect::<Vec<T>>();  ==> push loop (definition of map/collect on slices)"""
+    while True:
+        msk = mask(body)
+        m = re.search(r'let\s+(mut\s+)?(\w+)\s*=\s*(\w+)\s*\.\s*iter\(\)\s*\.\s*map\s*\(', msk)
+        if not m: return body
+        o = m.end() - 1
+        c = match_close(msk, o)
+        inner = body[o + 1:c]
+        cm = re.match(r'\s*\|\s*(\w+)\s*\|\s*(.*)$', inner, re.S)
+        tm = re.match(r'\s*\.\s*collect::<Vec<(\w+)>>\(\)\s*;', msk[c + 1:])
+        if not cm or not tm: raise ExtractError('R19: unsupported map/collect shape')
+        x, e = cm.group(1), cm.group(2).strip()
+        k = _fresh()
+        repl = ('let mut %s: Vec<%s> = Vec::new(); let mut %s: usize = 0; while %s < %s.len() { let %s = &%s[%s]; %s = %s + 1; %s.push(%s); }'
+                % (m.group(2), tm.group(1), k, k, m.group(3), x, m.group(3), k, k, k, m.group(2), e))
+        body = body[:m.start()] + repl + body[c + 1 + tm.end():]
+        cnt.hit('R19')
+
 def rw_paths(body, cnt):
     """D3: the unit is one module; drop `cosmwasm_std::` path qualifiers"""
     body, n = re.subn(r'\bcosmwasm_std::', '', body)
     if n: cnt.hit('D3', n)
     return body
 
-GENERIC = [rw_paths, rw_find, rw_update_closure, rw_sum, rw_for_loops, rw_opassign, rw_opassign_arm, rw_closure_underscore]
+GENERIC = [rw_paths, rw_map_collect, rw_find, rw_update_closure, rw_sum, rw_for_loops, rw_opassign, rw_opassign_arm, rw_closure_underscore]
 
 # --------------------------------------------------------------------------------------
 
